@@ -53,4 +53,9 @@ def stepC10 : List String → String
     | _, _, _ => "bad-op"
   | _ => "bad-op"
 
-def main : IO Unit := runPure stepC10
+/-- `checkseq`: the model has no state — the verdict is that of proof B through the wire format -/
+def stepC10' : List String → String
+  | "checkseq" :: _ha :: _ca :: _wa :: rest => stepC10 ("checkw" :: rest)
+  | t => stepC10 t
+
+def main : IO Unit := runPure stepC10'
